@@ -168,6 +168,9 @@ def jobs_for(tier):
                 cfg = dict(base)
                 cfg.update(lay)
                 cfg.update(target=target, nesterov=nes, T=2 if tier == "quick" else 3, pf=1, sps=10, tier=tier)
+                if target in ("sgd", "adagrad", "rmsprop"):
+                    # with beta1 = 0 the bias-correction flag is inside the range where the formulations coincide: both values must match torch.optim
+                    cfg["bias_corr"] = (li % 2 == 1)
                 if target in ("sgd", "adagrad", "rmsprop") and li == 1:
                     cfg["presence"] = "symbolic"
                     cfg["T"] = 3  # present / absent / present again needs three steps
